@@ -238,14 +238,18 @@ class ArrayReductionBaseTrans(Transformation, ABC):
         # one child so can safely use children[0].
         rhs = rhs_parent.children[0]
         if mask_ref:
-            mask_ref_parent = mask_ref.parent
-            mask_ref_index = mask_ref.position
+            # Work on a copy of the mask (given a temporary parent, as for
+            # rhs above) so that the original statement is left untouched
+            # if the conversion is refused later on.
+            mask_ref = mask_ref.copy()
+            mask_ref_parent = UnaryOperation.create(
+                UnaryOperation.Operator.NOT, mask_ref)
             for reference in mask_ref.walk(Reference):
                 try:
                     reference2arrayrange.apply(reference)
                 except TransformationError:
                     pass
-            mask_ref = mask_ref_parent.children[mask_ref_index]
+            mask_ref = mask_ref_parent.children[0]
 
         # Step 2: Put the intrinsic's extracted expression (stored in
         # the 'rhs' variable) on the rhs of an argument with one of
